@@ -32,6 +32,7 @@ func Main(registry map[string]func(*X)) {
 	progress := flag.String("progress", "", "progress file: the exec number is written before each execution")
 	deadline := flag.Duration("deadline", 5*time.Second, "watchdog per execution")
 	leakcheck := flag.Bool("leakcheck", true, "check for surviving scheduler goroutines after each execution")
+	bare := flag.Bool("bare", false, "race-detector mode: no event log, no shared counters, nothing that synchronises with the generated code")
 	flag.Parse()
 
 	var progs []*Prog
@@ -89,6 +90,9 @@ func Main(registry map[string]func(*X)) {
 			s.EffConc = effConc(p, &s)
 			s.EffCoe = effCoe(p, &s)
 			x := NewX(job.Exec*100+c, p, &s)
+			if *bare {
+				x.MakeBare()
+			}
 			xs[c] = x
 			wg.Add(1)
 			go func(x *X) {
@@ -103,7 +107,10 @@ func Main(registry map[string]func(*X)) {
 		wg.Wait()
 		// Quiescence: every started user function returns (none blocks), then all
 		// scheduler goroutines have to go away.
-		for i := 0; i < 3000; i++ {
+		if *bare {
+			time.Sleep(3 * time.Millisecond) // longer than any body of a bare scenario
+		}
+		for i := 0; i < 3000 && !*bare; i++ {
 			busy := false
 			for _, x := range xs {
 				if atomic.LoadInt32(&x.InBody) > 0 {
